@@ -217,7 +217,10 @@ func (mi *MessageInfo) marshalAppendPointer(b []byte, p pointer, opts marshalOpt
 			return b, err
 		}
 	}
-	if mi.unknownOffset.IsValid() && !mi.isMessageSet {
+	// Without MessageSet support (flags.ProtoLegacy unset) a MessageSet is handled as an
+	// ordinary extendable message: its unknown fields are emitted like any others,
+	// as sizePointerSlow counts them and unmarshalPointer stored them.
+	if mi.unknownOffset.IsValid() {
 		if u := mi.getUnknownBytes(p); u != nil {
 			b = append(b, (*u)...)
 		}
